@@ -71,11 +71,18 @@ func refSender(c *e2eCase) []byte {
 	return w.Encode()
 }
 
-func libSender(c *e2eCase) ([]byte, error) {
+func libSender(c *e2eCase) ([]byte, error) { return libSenderOpt(c, false, nil) }
+
+// libSenderOpt: emptyNonNil gives absent FOpts / FRMPayload as empty non-nil slices; share (application payload
+// frames only) makes the frame reference the application's own payload object instead of a private copy.
+func libSenderOpt(c *e2eCase, emptyNonNil bool, share *lorawan.DataPayload) ([]byte, error) {
 	up := ref.IsUplinkMType(c.F.MType)
-	p, err := gen.ToLib(&c.F, true)
+	p, err := gen.ToLibOpt(&c.F, true, emptyNonNil)
 	if err != nil {
 		return nil, err
+	}
+	if share != nil {
+		p.MACPayload.(*lorawan.MACPayload).FRMPayload = []lorawan.Payload{share}
 	}
 	if err := p.EncryptFRMPayload(gen.LibKey(c.frmKey())); err != nil {
 		return nil, fmt.Errorf("EncryptFRMPayload: %v", err)
@@ -170,6 +177,21 @@ func checkE2E(c e2eCase, allBits bool) evid.Outcome {
 	}
 	if want := refSender(&c); !bytes.Equal(air, want) {
 		return evid.Fail("bytes on the air %x differ from an independent sender %x (uplink=%v v1.1=%v FPort=%d FOpts=%d bytes)", air, want, up, c.V11, c.F.FPort, len(c.F.FOpts))
+	}
+	// the same frame value with its empty lists written as empty non-nil slices
+	if air2, err := libSenderOpt(&c, true, nil); err != nil || !bytes.Equal(air2, air) {
+		return evid.Fail("sender pipeline with absent FOpts/FRMPayload given as empty non-nil slices: %x (err %v), expected %x", air2, err, air)
+	}
+	// one application payload object sent in two frames (two devices / a retransmission with the next counter)
+	if c.F.FPort > 0 && len(c.F.FRM) > 0 {
+		app := &lorawan.DataPayload{Bytes: append([]byte{}, c.F.FRM...)}
+		d := c
+		d.F.FCnt++
+		first, err1 := libSenderOpt(&c, false, app)
+		second, err2 := libSenderOpt(&d, false, app)
+		if err1 != nil || err2 != nil || !bytes.Equal(first, air) || !bytes.Equal(second, refSender(&d)) {
+			return evid.Fail("the same application payload object %x sent in two frames (FCnt %#x and %#x): first %x (err %v), second %x (err %v); an independent sender gives %x and %x", c.F.FRM, c.F.FCnt, d.F.FCnt, first, err1, second, err2, air, refSender(&d))
+		}
 	}
 	// receiver
 	q, valid, err := libValidate(&c, air)
